@@ -82,6 +82,7 @@ func (writer *SSTableStreamWriter) Open() error {
 		}
 		writer.bloomFilter = bf
 	}
+	verifWriterOpened(writer)
 
 	return nil
 }
